@@ -218,10 +218,10 @@ def run_shard(spec):
                         runner.fail(res, 'M-LEX', f'{text!r}: expected {want}, got {h}', {'text': text})
                     else:
                         res['nontrivial'].append(runner.case_id(text))
-        cps = [0, 1, 0x41, 0x7f, 0x80, 0xff, 0x7ff, 0x800, 0xd7ff, 0xd800, 0xdbff, 0xdfff, 0xe000, 0xfffd, 0xffff, 0x10000, 0x1f30e,
+        cps = [0, 1, 0x41, 0x7f, 0x80, 0xff, 0x7ff, 0x800, 0xd7ff, 0xd800, 0xdbff, 0xdc00, 0xdc7f, 0xdc80, 0xdc81, 0xdcc3, 0xdcfe, 0xdcff, 0xdd00, 0xdfff, 0xe000, 0xfffd, 0xffff, 0x10000, 0x1f30e,
                0x10ffff, 0x110000, 0x7fffffff, 0xffffffffffff]
         r = random.Random(2)
-        cps += [r.randrange(0x110000) for _ in range(400)]
+        cps += [r.randrange(0x110000) for _ in range(400)] + [r.randrange(0xd800, 0xe000) for _ in range(60)] + [0x80000000, 0xffffffff, 0x100000000]
         for cp in cps:
             for text in ('"\\u{%x}"' % cp, '"a\\u{%X}b"' % cp, "'\\u{%x}'" % cp, '"\\u{%06x}"' % cp, '"\\u{%07x}"' % cp, '"\\u{%08X}"' % cp, "'\\u{%012x}'" % cp):
                 h = compare_with_reference(res, text, 'unicode escape')
